@@ -124,7 +124,7 @@ def rand_dirs(rnd, depth=None):
 # ---------------------------------------------------------------------------
 # A. what trash-put writes, and how the readers read it back (C03)
 
-def put_and_readback(seed, n=14, utf8_only=False, alphabet_paths=None, td=None):
+def put_and_readback(seed, n=14, utf8_only=False, alphabet_paths=None, td=None, p_long=0.0):
     """td: None (home trash / $topdir/.Trash-$uid), 'c' (--trash-dir on the volume m1, every command gets it),
     'clink' (the same directory, always named through a symlink that lives on the root volume: relative Path= values are
     then relative to the volume of the path as spelled, for the writer and for the readers alike)"""
@@ -162,6 +162,9 @@ def put_and_readback(seed, n=14, utf8_only=False, alphabet_paths=None, td=None):
                 dirs, name = [b'd%d' % i] + comps[:-1], comps[-1]
             else:
                 dirs, name = [b'd%d' % i] + rand_dirs(rnd), rand_name(rnd, utf8_only=utf8_only)
+                if rnd.random() < p_long:
+                    # a legal path whose percent-encoding is longer than PATH_MAX (every escaped byte takes three characters)
+                    dirs += [('%d-' % k2 + '\u044b\u0416 ' * 40).encode() for k2 in range(7)]
             p = top
             try:
                 for d in dirs:
@@ -860,6 +863,12 @@ def foreign_restore(seed, n=6, occupied=False):
             tail = rnd.choice([b'', b'', b'/', b'//'])               # other writers record directories with a trailing slash
             absp = top + b'/' + b'/'.join(dirs + [name]) + tail
             relp = (b'/'.join(dirs + [name]) + tail) if kind != 'home' else None
+            if occupied and rnd.random() < 0.3:
+                # a Path that goes through a directory that does NOT exist and back ('old/../name'): whatever the command makes
+                # of it, the file that lives at the location the rest of the path designates must not be replaced
+                absp = top + b'/' + b'/'.join(dirs + [b'no-such-dir', b'..', name])
+                relp = (b'/'.join(dirs + [b'no-such-dir', b'..', name])) if kind != 'home' else None
+                tail = b''
             content, strict = foreign_contents(rnd, absp, relp)
             if not strict:
                 continue
@@ -881,7 +890,7 @@ def foreign_restore(seed, n=6, occupied=False):
             occ = None
             if occupied:
                 # something already lives at the original location (C06): nothing may be restored, nothing may change there
-                dest = absp.rstrip(b'/')
+                dest = os.path.normpath(absp.rstrip(b'/')) if b'/no-such-dir/../' in absp else absp.rstrip(b'/')
                 os.makedirs(os.path.dirname(dest), exist_ok=True)
                 occ = rnd.choice(['file', 'dlink', 'flink', 'dir', 'emptydir'])
                 if occ == 'file':
@@ -898,7 +907,10 @@ def foreign_restore(seed, n=6, occupied=False):
                     if occ == 'dir':
                         with open(dest + b'/occupant', 'wb') as f:
                             f.write(b'occupant')
-                before = world.digest_of_sub(world.snapshot_sub(os.path.dirname(dest)))
+                # what must stay as it is: the occupant itself (and, for a link to a file, that file)
+                occ_state = lambda: (world.digest_of_sub(world.snapshot_sub(dest)) if os.path.lexists(dest) else None,
+                                     open(dest + b'.target', 'rb').read() if os.path.lexists(dest + b'.target') else None)
+                before = occ_state()
             args = (['--trash-dir', os.fsdecode(tdir)] if kind == 'c' else []) + ['/']
             res = box.run('trash-restore', args, stdin=b'0\n')
             landed = None
@@ -920,7 +932,7 @@ def foreign_restore(seed, n=6, occupied=False):
                  'note': 'exit %s %s' % (res['exit'], res['stderr'][-120:].decode('utf-8', 'replace'))}
             if occupied:
                 o['occupant'] = occ
-                o['intact'] = (world.digest_of_sub(world.snapshot_sub(os.path.dirname(dest))) == before and
+                o['intact'] = (occ_state() == before and
                                os.path.lexists(pay) and os.path.lexists(tdir + b'/info/' + slot + b'.trashinfo'))
             obs.append(o)
         finally:
